@@ -452,6 +452,9 @@ func newAZSelector(clientAZ string, startIdx int) func(uint16, []NodeInfo) int {
 		}
 
 		// Round-Robin on ALL available nodes
+		if len(nodes) <= startIdx {
+			return -1 // avoid the uint32 underflow below when there are fewer nodes than startIdx
+		}
 		if count := uint32(len(nodes) - startIdx); count > 0 {
 			c := counter.Add(1)
 			return int(c%count) + startIdx
